@@ -459,8 +459,16 @@ func cmdReplay(args []string) int {
 		fmt.Fprintln(os.Stderr, "HARNESS-FAULT:", r.Fault)
 		return 2
 	}
-	for i, s := range c.Steps {
-		fmt.Printf("  step %d: %s\n", i, s)
+	shown := c.Steps
+	if r.Case != nil && len(r.Case.Steps) >= len(c.Steps) {
+		shown = r.Case.Steps // includes the steps of the deterministic closer
+	}
+	for i, s := range shown {
+		tag := ""
+		if i >= len(c.Steps) {
+			tag = "   (closer)"
+		}
+		fmt.Printf("  step %d: %s%s\n", i, s, tag)
 	}
 	for _, v := range r.Violations {
 		fmt.Printf("violation: property=%s step=%d signature=%q\n    %s\n", v.Property, v.Step, v.Sig, v.Detail)
